@@ -21,6 +21,11 @@ func writeSubsysExt(spec string, enc *json.Encoder, t int, sc *Scenario, tr *Tra
 			_ = enc.Encode(e)
 			n++
 		}
+	case "Bid":
+		for _, e := range BidEvents(t, sc, tr) {
+			_ = enc.Encode(e)
+			n++
+		}
 	case "Olvm":
 		for _, e := range OlvmEvents(t, sc, tr) {
 			_ = enc.Encode(e)
